@@ -13,6 +13,8 @@
           the batches a relay between the real receiver and the real parser saw (sender IP,
           length, bytes, batch index) and the parser's counters; compared with
           Model/Receiver.receive (batch by batch, slot by slot) and [ingest].
+   KBurst many overlapping requests (2-16 goroutines) against the same router in the child
+          process; per request template the statuses observed and the total of dispatches.
    KHttp  one request to the real ingestion router; compared: the status the client saw
           (None = the connection died without a status) and the number of dispatches, against
           the trace of Model/WireStatus.handle under the library outcomes the harness computed
@@ -31,7 +33,8 @@ Inductive c03case :=
 | KRecv (ns : str) (table : list (str * pfres)) (local_unix : bool) (bsize : N)
         (script : list read_result) (obs : list (list odgram)) (counts : dresult)
 | KDgram (ns : str) (msgs : list str) (table : list (str * pfres)) (obs : dresult)
-| KHttp (ep : endpoint) (enc : str) (o : wire_oracle) (status : option N) (ndispatch : N).
+| KHttp (ep : endpoint) (enc : str) (o : wire_oracle) (status : option N) (ndispatch : N)
+| KBurst (reqs : list (endpoint * str * wire_oracle * list N * N)) (ndispatch : N).
 
 Definition dresult_eqb (a b : dresult) : bool :=
   match a, b with
@@ -81,6 +84,13 @@ Inductive explanation :=
 Definition misses (ns : str) (msgs : list str) (table : list (str * pfres)) : N :=
   N.of_nat (length (filter (fun l => is_miss (lex (oracle table) ns l)) (flat_map lines msgs))).
 
+(* a burst of overlapping requests: per request template the distinct statuses its copies got
+   ([0] = a copy got no status) and how many copies were sent; the model is per request *)
+Definition burst_ok (reqs : list (endpoint * str * wire_oracle * list N * N)) (nd : N) : bool :=
+  forallb (fun '(ep, h, o, sts, times) =>
+             (times =? 0) || list_eqb N.eqb sts (statuses (handle ep h o))) reqs
+  && (fold_right (fun '(ep, h, o, _, times) acc => times * dispatches (handle ep h o) + acc) 0 reqs =? nd).
+
 Definition check_case (c : c03case) : bool :=
   match c with
   | KLex lc => C02.check_case lc
@@ -96,6 +106,7 @@ Definition check_case (c : c03case) : bool :=
       | Some s => list_eqb N.eqb (statuses t) [s] && (dispatches t =? nd)
       | None => false
       end
+  | KBurst reqs nd => burst_ok reqs nd
   end.
 
 Definition explain_case (c : c03case) : explanation :=
@@ -111,6 +122,7 @@ Definition explain_case (c : c03case) : explanation :=
             (misses ns (flat_map read_data script) table)
   | KDgram ns msgs table _ => XDgram (dgram_model ns msgs table) (misses ns msgs table)
   | KHttp ep enc o _ _ => XHttp (handle ep enc o)
+  | KBurst reqs _ => XHttp (flat_map (fun '(ep, h, o, _, _) => handle ep h o) reqs)
   end.
 
 (* development-time validation of Model/LexerLegacy.v against a tree with the D1 repair
